@@ -11,7 +11,12 @@ Tie:
      (b) the model of the Dask path (`mapOverlap` over the generated kernel, driver) against the real
          Dask result and the real NumPy result;
      (c) every listed operation, Dask vs NumPy on the real code, over chunk compositions and
-         schedulers -- this is also the failing-input search.
+         schedulers -- this is also the failing-input search;
+     (d) several lazy results computed *together* (one dask.compute, threads x {2,4,8}), each against
+         its NumPy result: the only place where tasks of different calls share worker threads and
+         process-global state, i.e. where an impure block function (global RNG, module table) shows.
+         The purity itself is a proof obligation (Props/C01.lean `all_block_functions_pure`, decided on
+         the generated effect summaries); this stream is its observation and its failing-input search.
 """
 import itertools
 import math
@@ -21,7 +26,7 @@ import dask.array as da
 import numpy as np
 import xarray as xr
 
-from common import Driver, close, grid_tok, parse_grid, tok
+from common import Driver, Infra, close, grid_tok, parse_grid, tok
 
 PROP = "C01"
 SCHEDULERS = [("synchronous", None), ("threads", 1), ("threads", 2), ("threads", 4), ("threads", 16)]
@@ -524,6 +529,8 @@ def check_joint(r, T, group, scheds, rounds):
         for rnd in range(rounds):
             try:
                 bad = joint_once(T, calls, expected, sched)
+            except (MemoryError, OSError) as ex:      # the machine, not the library
+                raise Infra(f"joint compute: {type(ex).__name__}: {ex}")
             except Exception as ex:  # noqa: BLE001
                 bad = [(0, f"joint compute raised {type(ex).__name__}: {str(ex)[:200]}")]
             if bad:
@@ -557,7 +564,10 @@ def run(r, scale=1):
     r.rule = ("streams: halo-delivery (dask blocks vs model haloBlock), model-overlap (model mapOverlap of generated "
               "kernels vs real dask), dask-vs-numpy for 26 operations on rasters 1..7 x 1..7, dtypes int8..float64, "
               "NaN/inf cells, res attrs, random chunk compositions (thorough: all compositions for small shapes), "
-              "schedulers synchronous/threads x {1,2,4,16}; non-trivial = more than one block")
+              "schedulers synchronous/threads x {1,2,4,16}; joint-compute: groups of 3-6 calls (all from the operations whose "
+              "generated effect summary writes global state, distinct seeds; or mixed over all operations) whose lazy results are "
+              "computed by one dask.compute under threads x {2,4,8} (synchronous as control), 2-3 rounds, each compared with its "
+              "NumPy result; non-trivial = more than one block / a joint group")
     for body in r.corpus():
         if body["case"].get("stream") == "joint":
             replay_joint(r, T, body["case"], repeat=2)
